@@ -124,4 +124,19 @@ PlanConsistent == planned = Range(plan) /\ Cardinality(planned) = Len(plan)
 PlanDisjointFromExecuted == phase = "run" => Range(plan) \cap executed = {}
 \* the step always terminates: every visit shrinks the unvisited set
 Progress == Cardinality(executed) = Len(log)
+
+(***************************************************************************)
+(* Liveness (ControllerLive.cfg, no state constraint: the constants bound  *)
+(* the graph, so the fairness check is sound).  A step that was started    *)
+(* ends -- by emptying the plan or by a cut -- whatever the guards, the    *)
+(* requests and the iteration orders are; requests are the only way the    *)
+(* plan grows, and they can only name unexecuted work.  StepVariant is the *)
+(* termination measure of the while loop in __call__: every Pop strictly   *)
+(* decreases the number of unvisited statements.                           *)
+(***************************************************************************)
+LiveSpec == Init /\ [][Next]_vars /\ WF_vars(Next)
+StepEnds == (phase = "plan") ~> (phase = "idle")
+AllStepsTaken == <>(nsteps = MaxSteps /\ phase = "idle")
+StepVariant == [][phase = "run" /\ phase' = "run"
+                    => Cardinality(Stmts \ executed') < Cardinality(Stmts \ executed)]_vars
 =============================================================================
